@@ -87,7 +87,6 @@ def check_algo(ck, aname, algo, env, mkpol):
             if missing or not names:
                 ck.fact(f"observer.{aname}.{phase}.{cname}", False, f"outputs missing under the callback set: {missing[:5]}")
                 continue
-            goal = conj([eq_arr(out0[n], out1[n]) if tuple(out0[n].shape) == tuple(out1[n].shape) else False for n in names])
             A = stubs.contracts(it0) + stubs.contracts(it1)
 
             def rp(res, tr0=tr0, tr1=tr1, S0=S0, S1=S1, it0=it0, it1=it1, names=names):
@@ -97,8 +96,43 @@ def check_algo(ck, aname, algo, env, mkpol):
                     r0 = dict(zip(tr0.out_names, concrete.run_real(tr0, [concrete.model_leaf(res, S0[m], av, keys) for m, av in zip(tr0.in_names, tr0.in_avals)], w)))
                     r1 = dict(zip(tr1.out_names, concrete.run_real(tr1, [concrete.model_leaf(res, S1[m], av, keys) for m, av in zip(tr1.in_names, tr1.in_avals)], w)))
                 diffs = [n for n in names if n in r0 and n in r1 and not np.allclose(concrete.real_to_float(r0[n]), concrete.real_to_float(r1[n]), rtol=1e-4, atol=1e-5, equal_nan=True)]
-                return bool(diffs), {"outputs_that_differ_with_the_observer_attached": diffs[:10]}
-            ck.prove(f"observer.{aname}.{phase}.{cname}", A, goal, replay=rp, nonlinear=False, timeout=120)
+                world_used = "interpretation of the uninterpreted functions taken from the solver model"
+                if not diffs:
+                    # the model's interpretation is only matched approximately on float operands; confirm on the real code with generic interpretations
+                    from jaxsmt.uf import GenericWorld
+                    for sd in range(3):
+                        with stubs.prng_stubs():
+                            v0 = [concrete.model_leaf(res, S0[m], av, keys) for m, av in zip(tr0.in_names, tr0.in_avals)]
+                            v1 = [concrete.model_leaf(res, S1[m], av, keys) for m, av in zip(tr1.in_names, tr1.in_avals)]
+                            r0 = dict(zip(tr0.out_names, concrete.run_real(tr0, v0, GenericWorld(seed=100 + sd))))
+                            r1 = dict(zip(tr1.out_names, concrete.run_real(tr1, v1, GenericWorld(seed=100 + sd))))
+                        diffs = [n for n in names if n in r0 and n in r1 and not np.allclose(concrete.real_to_float(r0[n]), concrete.real_to_float(r1[n]), rtol=1e-4, atol=1e-5, equal_nan=True)]
+                        if diffs:
+                            world_used = f"generic interpretation (seed {100 + sd}) on the model's inputs"
+                            break
+                return bool(diffs), {"outputs_that_differ_with_the_observer_attached": diffs[:10], "world": world_used}
+            goals = {n: (eq_arr(out0[n], out1[n]) if tuple(out0[n].shape) == tuple(out1[n].shape) else False) for n in names}
+            differing = [n for n in names if goals[n] is not True]
+            if not differing:
+                ck.prove(f"observer.{aname}.{phase}.{cname}", A, True, replay=rp)
+                continue
+            # outputs whose terms differ: decide the cheap, structural ones first (environment state, buffers, counters); the first reproduced
+            # difference settles the obligation, so the expensive (gradient-sized) terms are only queried when the cheap ones are equal
+            cheap = lambda n: 0 if ("env_state" in n or "buffer" in n or "count" in n or "policy_state" in n) else 1
+            differing.sort(key=lambda n: (cheap(n), len(n)))
+            nv = len(ck.violations) + len(ck.known_hits)
+            zero = []
+            for Sx in (S0, S1):
+                for n_, v in Sx.items():
+                    if (n_.startswith("st_policy_") or n_.startswith("pol_")) and "space" not in n_:
+                        zero += [x == 0 for x in v.reshape(-1) if isinstance(x, z3.ExprRef) and z3.is_real(x)]
+            if len(ck.inconclusive) >= 6:
+                ck.skip(f"observer.{aname}.{phase}.{cname}", "skipped: six observer obligations are already inconclusive in this run")
+                continue
+            for n in differing[:4]:
+                ck.prove(f"observer.{aname}.{phase}.{cname}:{n}", A, goals[n], replay=rp, timeout=10 if not ck.thorough else 60, sample=False, search_hints=zero)
+                if len(ck.violations) + len(ck.known_hits) > nv:
+                    break
     # key sensitivity (vacuity-style witness): an implementation that ignores its key makes this unsat
     tr0, it0, S0, out0 = base["iteration"]
     it2 = Interp()
@@ -117,7 +151,8 @@ def check_algo(ck, aname, algo, env, mkpol):
         """run the real iteration twice with two different keys in a generic world: identical outputs = the key is ignored"""
         from jaxsmt.uf import GenericWorld
         rng = np.random.default_rng(ck.seed)
-        vals = [concrete.random_leaf(av, rng, nm) for nm, av in zip(tr0.in_names, tr0.in_avals)]
+        gen = lambda n, av, r: (jnp.full(av.shape, 4, av.dtype) if n.endswith("position") else (jnp.full(av.shape, 1, av.dtype) if (n.endswith("step_count") or n.endswith("iteration_count") or n.endswith("max_episode_steps") and False) else (jnp.full(av.shape, 3, av.dtype) if n.endswith("max_episode_steps") else None)))
+        vals = [concrete.random_leaf(av, rng, nm, gen) for nm, av in zip(tr0.in_names, tr0.in_avals)]
         ki = tr0.in_names.index("key")
         outs = []
         with stubs.prng_stubs():
